@@ -73,10 +73,17 @@ package persistence
 // ---- C18: the SQL row's key_record column is the JSON document of the record itself ----
 //@ extern sql.(*DB).ExecContext
 //@   names db, ctx, query, args
+//@ func (*SQLMetastore).Load
+//@   names s, ctx, keyID, created
+//@   facet C13
+//@   opt no-frame
+//@   requires s != nil && s.db != nil
+//@   ensures [C13:sql-load-binds-the-whole-second-stamp] ncalls(Unix) == 1 && arg(Unix, 1, sec) == created && arg(Unix, 1, nsec) == 0
 //@ func (*SQLMetastore).Store
 //@   names s, ctx, keyID, created, envelope
-//@   facet C18
+//@   facet C18, C13
 //@   opt no-frame
 //@   requires s != nil && s.db != nil
 //@   ensures [C18:sql-row-is-the-json-document-of-the-record] ncalls(Marshal) == 1 && istype(arg(Marshal, 1, v), *appencryption.EnvelopeKeyRecord) && dyn(arg(Marshal, 1, v), *appencryption.EnvelopeKeyRecord) == envelope
+//@   ensures [C13:sql-created-column-is-the-whole-second-stamp] retis(Marshal, 1, 1, nil) ==> ncalls(Unix) == 1 && arg(Unix, 1, sec) == created && arg(Unix, 1, nsec) == 0
 //@   ensures [C18:sql-insert-uses-the-configured-statement] retis(Marshal, 1, 1, nil) ==> ncalls(ExecContext) == 1 && arg(ExecContext, 1, query) == s.storeKeyQuery && len(arg(ExecContext, 1, args)) == 3
